@@ -107,6 +107,15 @@ def check_header(c):
     hb = H.PduHeader(d.PduType(c["pdu_type"]), d.SegmentMetadataFlag(c["seg_meta"]), c["dlen"], bconf)
     eq(devs, "ids_assigned_from_longer_octet_strings.pack", bytes(hb.pack()), want)
     eq(devs, "ids_assigned_from_longer_octet_strings.header_len", hb.header_len, hl)
+    # zero placeholders of the right widths (ByteFieldEmpty(width)) put into the configuration and filled in place afterwards
+    from spacepackets.util import ByteFieldEmpty
+
+    econf = cf.PduConfig(ByteFieldEmpty(c["idw"]), ByteFieldEmpty(c["idw"]), ByteFieldEmpty(c["seqw"]), d.TransmissionMode(c["mode"]), d.LargeFileFlag(c["large"]),
+                         d.CrcFlag(c["crc"]), d.Direction(c["dir"]), d.SegmentationControl(c["segctrl"]))
+    he = H.PduHeader(d.PduType(c["pdu_type"]), d.SegmentMetadataFlag(c["seg_meta"]), c["dlen"], econf)
+    eq(devs, "placeholder_ids.pack_zero", bytes(he.pack()), R.header({**c, "src": 0, "dst": 0, "seq": 0}, c["pdu_type"], c["dir"], c["seg_meta"], c["dlen"]))
+    econf.source_entity_id.value, econf.dest_entity_id.value, econf.transaction_seq_num.value = c["src"], c["dst"], c["seq"]
+    eq(devs, "placeholder_ids.pack_after_filled_in_place", bytes(he.pack()), want)
     # a decoded header's id / sequence-number objects are changed in place by their owner; decoding the same octets again gives the packed values again
     u3 = H.PduHeader.unpack(want)
     u3.pdu_conf.source_entity_id.value = (c["src"] + 1) % (1 << (8 * c["idw"]))
